@@ -187,6 +187,8 @@ type zzC17T struct {
 	u int
 }
 
+type zzC17Named map[string]any
+
 func zzC17Value() map[string]any {
 	return map[string]any{
 		"a": map[string]any{
@@ -199,6 +201,10 @@ func zzC17Value() map[string]any {
 		"nilp": (*zzC17T)(nil),
 		"sl":   []string{"x", "y"},
 		"0":    "zero-key",
+		"pa":   &[2]int{7, 8},
+		"ps":   &[]string{"x", "y"},
+		"tm":   map[string]int{"7": 70, "k": 1},
+		"nm":   zzC17Named{"0": "named-zero", "k": "nk"},
 	}
 }
 
@@ -229,6 +235,22 @@ func zzC17Index(cur any, seg string) (any, bool) {
 			return nil, false
 		}
 		return c[i], true
+	case *[2]int:
+		if c == nil {
+			return nil, false
+		}
+		return zzC17Index(*c, seg)
+	case *[]string:
+		if c == nil {
+			return nil, false
+		}
+		return zzC17Index(*c, seg)
+	case map[string]int:
+		v, ok := c[seg]
+		return v, ok
+	case zzC17Named:
+		v, ok := c[seg]
+		return v, ok && v != nil
 	case *zzC17T:
 		if c == nil {
 			return nil, false
@@ -250,7 +272,7 @@ func zzC17Index(cur any, seg string) (any, bool) {
 
 var zzNilPtr = (*int)(nil)
 
-var zzC17Segs = []string{"a", "b", "m", "k", "c", "arr", "p", "s", "nilp", "sl", "X", "Y", "T", "t", "u", "0", "1", "2", "9", "-1", "zz"}
+var zzC17Segs = []string{"a", "b", "m", "k", "c", "arr", "p", "s", "nilp", "sl", "X", "Y", "T", "t", "u", "0", "1", "2", "9", "-1", "zz", "pa", "ps", "tm", "nm", "7"}
 
 // VerifC17_Paths: every well-formed dotted / bracketed path of up to three
 // segments resolves to what Go indexing reaches, or is reported absent.
